@@ -482,7 +482,7 @@ func (h *httpServerHandler) handlePostResponse(ctx context.Context, w http.Respo
 	} else {
 		// Invalid response - neither error nor result.
 		h.logger.Errorf("Invalid JSON-RPC response: missing both result and error for ID: %v", response.ID)
-		h.sendNotificationResponse(w, session)
+		http.Error(w, "Invalid JSON-RPC message: an id with neither method nor result nor error", http.StatusBadRequest)
 		return
 	}
 
